@@ -82,6 +82,8 @@ def impl_paths(i):
     return {"error": i["error"], "detail": {k: i.get(k) for k in ("etype", "site", "msg")}}
 
 
+TOLERATE_STAR_ORDER = False   # True while D16 (hash-ordered relation set under an unqualified `*`) was an open finding
+
 N_ORDERS = 60      # orders tried for the hash-ordered set of relations an unqualified `*` ranges over (5! covers <= 5 relations)
 
 
@@ -140,6 +142,8 @@ def mismatch(drv, stmt, dialect):
         return False
     if ip == model_paths(a):
         return False
+    if not TOLERATE_STAR_ORDER:
+        return True
     outs, _ = star_outcomes(drv, stmt)
     return not agrees_modulo_order(ip, outs)
 
@@ -174,7 +178,10 @@ def run(chk):
         if gensql.item_has_subq(s):
             st.c["skipped:item-subquery"] += 1
             continue
-        if ip != m1 and ip != m2:
+        if "D16" not in listed:
+            # D16 is repaired (relations are visited in FROM order): the implementation must equal the model at order 0
+            m2 = m1
+        elif ip != m1 and ip != m2:
             # order-sensitive statement: ask the model for more iteration orders
             if ci not in outcome_cache:
                 outcome_cache[ci] = star_outcomes(drv, s)[0]
